@@ -59,5 +59,6 @@ WellFormed == (fin # -1) => W!A!Parse(W!A!EncCalls(calls, 1), "O", 10).ok
 ValsDoc == << W!I8(<<5,0,0,0,0,0,0,0>>), [op |-> "t", v |-> <<>>], [op |-> "str", v |-> <<120>>], [op |-> "bytes", v |-> <<>>] >>
 ValsDoc1 == << W!I8(<<5,0,0,0,0,0,0,0>>) >>
 NamesEAB == << <<>>, <<97>>, <<98>> >>
+NamesLongW == << <<97>>, [i \in 1..127 |-> 109], [i \in 1..128 |-> 109], <<122>> >>     \* names across the 127/128 length-prefix boundary
 NamesNul == << <<>>, <<97>>, <<97, 0>>, <<97, 0, 120>>, <<97, 0, 121>>, <<128>> >>
 =============================================================================
